@@ -426,28 +426,32 @@ Definition cb_power (k : kcfg) (d : dev) (in_move ae : bool) (t : Z) : dev :=
       then upd_times d (up_time d) (down_time d) t (last_comm d) else d
     else d
   else upd_cal d (ac_step d) (perform d) (button_req d) false.
-(* (3) accounting of the elapsed time; returns the travel times for the task processing *)
+(* (3) accounting of the elapsed time; returns the travel times for the task processing.
+   Written as a pipeline of small functions (one direction at a time) to keep the proofs small. *)
+Definition carry_of (up : bool) (d : dev) : Z := if up then up_time d else down_time d.
+Definition end_stop (up : bool) : Z := if up then 100 else 10100.
+(* up_time += elapsed / down_time = 0 (or the other way round) *)
+Definition acc_add (d : dev) (up : bool) (el : Z) : dev :=
+  if up then upd_times d (u32 (up_time d + el)) 0 (last_time d) (last_comm d)
+  else upd_times d 0 (u32 (down_time d + el)) (last_time d) (last_comm d).
+Definition acc_cm (k : kcfg) (d : dev) (up im : bool) : dev :=
+  if 0 <? carry_of up d then check_motor k d up im else d.
+Definition acc_pre (k : kcfg) (d : dev) (up im : bool) (el : Z) : dev * bool :=
+  autocalibrate k (acc_cm k (acc_add d up el) up im) im.
+(* the travel time used by calibrate / move_position: re-read after a finished auto-calibration step *)
+Definition acc_full (p : dev * bool) (up : bool) (f : Z) : Z :=
+  if snd p then (if up then aot (fst p) else act (fst p)) else f.
+Definition acc_post (o : fpops) (k : kcfg) (p : dev * bool) (up im : bool) (f : Z) : dev :=
+  move_position_d o k (calibrate_d o k (fst p) (acc_full p up f) (carry_of up (fst p)) (end_stop up)) (acc_full p up f) up im.
 Definition cb_account (o : fpops) (k : kcfg) (d : dev) (in_move : bool) (t fo fc : Z) : dev * Z * Z :=
-  let el := u32 (t - last_time d) in
   if up_on d then
-    let d := upd_times d (u32 (up_time d + el)) 0 (last_time d) (last_comm d) in
-    let d := if 0 <? up_time d then check_motor k d true in_move else d in
-    let da := autocalibrate k d in_move in
-    let d := fst da in
-    let fo := if snd da then aot d else fo in
-    let d := calibrate_d o k d fo (up_time d) 100 in
-    (move_position_d o k d fo true in_move, fo, fc)
+    (acc_post o k (acc_pre k d true in_move (u32 (t - last_time d))) true in_move fo,
+     acc_full (acc_pre k d true in_move (u32 (t - last_time d))) true fo, fc)
   else if down_on d then
-    let d := upd_times d 0 (u32 (down_time d + el)) (last_time d) (last_comm d) in
-    let d := if 0 <? down_time d then check_motor k d false in_move else d in
-    let da := autocalibrate k d in_move in
-    let d := fst da in
-    let fc := if snd da then act d else fc in
-    let d := calibrate_d o k d fc (down_time d) 10100 in
-    (move_position_d o k d fc false in_move, fo, fc)
+    (acc_post o k (acc_pre k d false in_move (u32 (t - last_time d))) false in_move fc,
+     fo, acc_full (acc_pre k d false in_move (u32 (t - last_time d))) false fc)
   else
-    let d := if ac_step d =? 0 then fl_clear d FLAG_CALIBRATION_IN_PROGRESS else d in
-    (upd_times d 0 0 (last_time d) (last_comm d), fo, fc).
+    (upd_times (if ac_step d =? 0 then fl_clear d FLAG_CALIBRATION_IN_PROGRESS else d) 0 0 (last_time d) (last_comm d), fo, fc).
 (* (4) supla_esp_gpio_rs_check_if_autocal_is_needed, task processing, report block *)
 Definition cb_tail (k : kcfg) (d : dev) (in_move : bool) (t fo fc : Z) : dev :=
   let d := if autocal_enabled k d && negb (autocal_done d) && (ac_step d =? 0)
